@@ -121,13 +121,31 @@ def run(ctx):
              "expand")
     cs = header_stores(comp.node)
     written = {k for k in cs if k.startswith("BN_")}
+    def key_list(fnode, e):
+        """string elements of a literal list / tuple, directly or through a
+        local or module-level name"""
+        if isinstance(e, ast.Name):
+            from .c08 import _resolve_local
+            r = _resolve_local(fnode, e)
+            if r is e:
+                r = mod.consts.get(e.id)
+            e = r
+        if isinstance(e, (ast.List, ast.Tuple, ast.Set)):
+            return [x.value for x in e.elts if isinstance(x, ast.Constant)
+                    and isinstance(x.value, str)]
+        return []
     required = set()
     for n in ast.walk(isc.node):
-        if isinstance(n, (ast.List, ast.Tuple)):
-            vals = [e.value for e in n.elts if isinstance(e, ast.Constant)
-                    and isinstance(e.value, str)]
+        if isinstance(n, (ast.List, ast.Tuple, ast.Name)):
+            vals = key_list(isc.node, n)
             if vals and all(v.startswith("BN_") for v in vals):
                 required |= set(vals)
+        if isinstance(n, ast.Compare) and len(n.ops) == 1 and \
+                isinstance(n.ops[0], ast.In) and \
+                isinstance(n.left, ast.Constant) and \
+                isinstance(n.left.value, str) and \
+                n.left.value.startswith("BN_"):
+            required.add(n.left.value)
     deleted = set()
     read = set()
     for n in walk_no_nested(exp.node):
@@ -136,6 +154,12 @@ def run(ctx):
                 if isinstance(t, ast.Subscript) and \
                         isinstance(t.slice, ast.Constant):
                     deleted.add(t.slice.value)
+        if isinstance(n, ast.For) and isinstance(n.target, ast.Name) and any(
+                isinstance(d, ast.Delete) and any(
+                    isinstance(t, ast.Subscript) and
+                    norm(t.slice) == n.target.id for t in d.targets)
+                for d in n.body):
+            deleted |= set(key_list(exp.node, n.iter))
         if isinstance(n, ast.Subscript) and isinstance(n.ctx, ast.Load) and \
                 isinstance(n.slice, ast.Constant) and \
                 isinstance(n.slice.value, str) and \
@@ -266,9 +290,11 @@ def run(ctx):
     if grids:
         sl = grids[0].value.slice
         if isinstance(sl, ast.Tuple) and len(sl.elts) == 2:
+            from .c08 import _resolve_local
             okg = [norm(e.lower) for e in sl.elts] == ["0", "0"] and \
-                [norm(e.upper) for e in sl.elts] == ["header['BN_NPX2']",
-                                                    "header['BN_NPX1']"]
+                [norm(_resolve_local(exp.node, e.upper)).replace('"', "'")
+                 for e in sl.elts] == ["header['BN_NPX2']",
+                                       "header['BN_NPX1']"]
     ctx.check("C15-R3", exp, "output grid extents", okg,
               "the evaluation grid must span rows 0..BN_NPX2 and columns "
               "0..BN_NPX1 (numpy row-major order)",
